@@ -36,7 +36,9 @@ SALS = [9, 7, 7, 5, 3, 0, 0, -2, -5, 2 ** 63 - 100, -2 ** 63 + 100]      # ties,
 KIND_FLAGS = {"plain": (False, False), "ret": (False, True), "bare": (False, True),
               "fail": (True, False), "retfail": (True, False),
               "panic1": (True, False), "panic2": (True, False), "loop": (True, False),
-              "brk": (True, False), "cont": (True, False), "retpriv": (True, False), "bigfail": (True, False)}
+              "brk": (True, False), "cont": (True, False), "retpriv": (True, False), "bigfail": (True, False),
+              # fails in its FIRST execution of the call only (repeated names: one occurrence fails, another succeeds later): the rule failed in this call
+              "flaky": (True, False), "concflaky": (True, False)}
 
 
 def mk_rules(rng, k, kinds=("plain", "ret", "fail"), weights=(3, 3, 2), stop_p=0.0, distinct_sal=False):
